@@ -1,5 +1,250 @@
-import Operon.Model.Lysosome
+import Operon.Lemmas.C13
 import Operon.Gen.LysosomeLocks
+/-!
+# C13 — waste handling never hangs, stays bounded and accounts for every item
+
+Property theorems only.  Model: `Operon/Model/Lysosome.lean` (hand-written; tied to
+`operon_ai/organelles/lysosome.py` by the differential correspondence of `harness/vf/props/c13.py`) and the
+lock shapes `Operon/Gen/LysosomeLocks.lean` regenerated from the source by extractor E3 on every run.
+
+Every statement quantifies over every configuration (`max_queue_size`, `auto_digest_threshold`, retention, the
+digester table and the `on_toxic` callback as arbitrary functions that return or raise) and every history
+(`List Op`, any length); the thread statement over any number of threads, any calls, any finite paths, any schedule.
+-/
 namespace Operon.Lysosome
-theorem c13_stub : (run ⟨2, 2, 0, true, fun _ => .ret [], none, none⟩ init []).queue = [] := rfl
+open Operon.Gen.LysosomeLocks
+
+/-- The five places an ingested item can be, as one list. -/
+def State.fates (s : State) : List Item :=
+  s.queue ++ s.gDigested ++ s.gErrored ++ s.gEmDropped ++ s.gExpired
+
+/-! ### every call returns -/
+
+/-- (table; complete, by evaluation of the decidable check on the extracted shapes) The extractor recognised the
+    source, the lock kind is known, every method stored in the digester table is lock-free and every method of
+    `Lysosome` is disciplined: it never re-acquires a non-reentrant lock it holds, never releases a lock it does not
+    hold, and returns without the lock. -/
+theorem c13_shapes_disciplined_table :
+    recognised = true ∧ shapesOk lockKind methods tableMethods = true := by decide
+
+/-- Every ingest, digest and autophagy call returns, from any number of threads: threads that each perform any
+    sequence of calls of `Lysosome` methods (public or not), each along any finite path (any branch taken or not,
+    callbacks run any number of times), under any schedule, never reach a configuration where somebody still has
+    work and nobody can move — and `n` steps use up exactly `n` of the finitely many lock events, so no schedule
+    runs forever.  Stated for whatever lock kind the source has (`reentOf lockKind = some reent`). -/
+theorem c13_every_call_returns_threads (reent : Bool) (hk : reentOf lockKind = some reent) (threads : List Thr)
+    (h : ∀ t ∈ threads, t.depth = 0 ∧ CallsProg methods tableMethods t.prog) (n : Nat) (c : List Thr)
+    (hs : StepsN reent n threads c) :
+    (Final c ∨ ∃ c', Step reent c c') ∧ measure threads = measure c + n :=
+  threads_return c13_shapes_disciplined_table.2 hk threads h hs
+
+/-- Sequentially, for any configuration and history: every call yields a result (never `hang`, never the
+    abandoned-object marker) — including the ingest that reaches the auto-digest threshold or capacity.  The
+    model's lock flag is the extracted lock kind. -/
+theorem c13_every_call_returns (cfg : Cfg) (hre : cfg.reent = (reentOf lockKind == some true)) (ops : List Op) :
+    (∀ o ∈ runObs cfg init ops, o.returned = true) ∧ (run cfg init ops).dead = false := by
+  have : (reentOf lockKind == some true) = true := by decide
+  rw [this] at hre
+  exact run_returns cfg hre ops init rfl
+
+/-- (table) The re-entrancy is load-bearing: with a plain `Lock` the extracted shape of today's source does not
+    pass (ingest still calls digest while holding the lock). -/
+theorem c13_reentrancy_needed_table : shapesOk .lock methods tableMethods = false := by decide
+
+/-- (table) `_queue` is written only while the lock is held, in every public method; the only shared fields written
+    without the lock are the recycling bin and the two counters of `digest`'s loop (single-line updates), and the
+    bin in `clear_recycling_bin`.  This is what the thread-level accounting argument rests on. -/
+theorem c13_unlocked_writes_table :
+    (∀ mw ∈ unlockedWrites, "_queue" ∉ mw.2 ∧ "_total_ingested" ∉ mw.2 ∧ "_by_type" ∉ mw.2) ∧
+    unlockedWrites.filter (fun mw => !mw.2.isEmpty) =
+      [("clear_recycling_bin", ["_recycling_bin"]),
+       ("digest", ["_recycling_bin", "_total_digested", "_total_recycled"])] := by decide
+
+/-! ### the pinned tree: the self-deadlock, kernel-checked -/
+
+/-- the shapes E3 extracts from the pinned tree (commit 8129259), kept as a constant -/
+def pinnedMethods : Table := [
+  ("__init__", false, []), ("digest", true, [.acq, .rel, .cb]), ("_auto_digest", false, [.call 1]),
+  ("_digest_default", false, []), ("_digest_expired", false, []), ("_digest_failed_op", false, []),
+  ("_digest_misfolded", false, []), ("_digest_orphaned", false, [.cb]), ("_digest_toxic", false, [.cb]),
+  ("_emergency_digest", false, [.cb]), ("autophagy", true, [.acq, .rel]), ("clear_recycling_bin", true, []),
+  ("get_queue_status", true, [.acq, .rel]), ("get_recycled", true, []), ("get_statistics", true, []),
+  ("ingest", true, [.acq, .call 9, .call 2, .rel]), ("ingest_error", true, [.call 15]),
+  ("ingest_sensitive", true, [.call 15])]
+
+/-- On the pinned tree (`threading.Lock`): the check fails; `ingest` has the path acquire, acquire (inside
+    `_auto_digest → digest`), release, release; and a thread on that path, once it has taken the lock, never moves
+    again whatever the other threads do — the configuration is never finished, i.e. the call never returns. -/
+theorem c13_pinned_shape_stuck_witness :
+    shapesOk .lock pinnedMethods [3, 4, 5, 6, 7, 8] = false ∧
+    Path pinnedMethods [3, 4, 5, 6, 7, 8] (Table.body pinnedMethods 15) [.acq, .acq, .rel, .rel] ∧
+    ∀ (others : List Thr) (n : Nat) (c : List Thr), (∀ u ∈ others, u.depth = 0) →
+      StepsN false n (⟨1, [.acq, .rel, .rel]⟩ :: others) c → ¬ Final c := by
+  refine ⟨by decide, ?_, ?_⟩
+  · have hdig : Path pinnedMethods [3, 4, 5, 6, 7, 8] (Table.body pinnedMethods 1) [.acq, .rel] :=
+      Path.acq (Path.rel (Path.cbDone Path.nil))
+    have hauto : Path pinnedMethods [3, 4, 5, 6, 7, 8] (Table.body pinnedMethods 2) ([.acq, .rel] ++ []) :=
+      Path.callTake hdig Path.nil
+    exact Path.acq (Path.callSkip (Path.callTake hauto (Path.rel Path.nil)))
+  · intro others n c hz hs hf
+    have hh : holders (⟨1, [.acq, .rel, .rel]⟩ :: others) ≤ 1 := by
+      have := holders_mid [] others ⟨1, [.acq, .rel, .rel]⟩
+      simp only [List.nil_append] at this
+      rw [this, holders_zero_of_all hz]
+      simp [holders]
+    have := (stuck_forever (d := 1) (r := [.rel, .rel]) (by omega) (by simp) hh hs).1
+    have := hf _ this
+    simp at this
+
+/-- The same in the sequential model: with a non-reentrant lock the second ingest of the corpus history
+    `cfg 2 2 … / ingest / ingest` hangs. -/
+theorem c13_pinned_ingest_hangs_witness :
+    (runObs ⟨2, 2, 3515625, false, fun _ => .ret [], none, none⟩ init
+      [.ingest 1 .expired 2, .ingest 2 .expired 2]).map Obs.returned = [true, false] := by decide
+
+/-! ### bounded queue -/
+
+/-- After every call the queue holds at most `max_queue_size` items, for `max_queue_size ≥ 2`, any threshold, any
+    digesters, any history. -/
+theorem c13_queue_bounded (cfg : Cfg) (h2 : 2 ≤ cfg.maxQ) (ops : List Op) :
+    (run cfg init ops).queue.length ≤ cfg.maxQ :=
+  run_queue_bound cfg h2 ops init (by simp [init])
+
+/-- (witness that the side condition is needed) with `max_queue_size = 1` the emergency digest processes
+    `1 // 2 = 0` items and the queue grows past the bound. -/
+theorem c13_queue_bound_needs_two_witness :
+    (run ⟨1, 1000, 0, true, fun _ => .ret [], none, none⟩ init
+      [.ingest 1 .expired 0, .ingest 2 .expired 0]).queue.length = 2 := by decide
+
+/-! ### every item has exactly one fate -/
+
+/-- After any history, under any configuration and any digester behaviour: the queue and the four ghost lists
+    (digested, errored, emergency-dropped, expired) together are a rearrangement of the list of all ingested items,
+    without repetition — every ingested item is in exactly one of the five places, exactly once — and the observable
+    numbers are the sizes of those places: `_total_ingested` items were ingested (distinct, numbered 0,1,2,…),
+    `_total_digested` counts the digested ones, the errors returned in `DigestResult`s plus the errors logged by
+    `_auto_digest` count the errored ones, the warnings of `_emergency_digest` the emergency-dropped ones, and the
+    sum of `autophagy()`'s return values the expired ones. -/
+theorem c13_fate_partition (cfg : Cfg) (ops : List Op) :
+    let s := run cfg init ops
+    s.fates.Perm s.items ∧ s.fates.Nodup ∧ s.items.map (·.seq) = List.range s.ingested ∧
+    s.digested = s.gDigested.length ∧ s.reported + s.autoLogged = s.gErrored.length ∧
+    s.emLogged = s.gEmDropped.length ∧ s.expiredRet = s.gExpired.length := by
+  intro s
+  have h : Acct s := run_acct cfg ops init init_acct
+  have hperm : s.fates.Perm s.items := by
+    rw [List.perm_iff_count]
+    intro it
+    have := h.occ_eq it
+    simp only [State.fates, List.count_append, occ] at this ⊢
+    omega
+  have hnd : s.items.Nodup := by
+    have : (s.items.map (·.seq)).Nodup := by rw [h.seqs]; exact List.nodup_range
+    exact List.Pairwise.of_map (·.seq) (fun a b hab e => hab (by rw [e])) this
+  exact ⟨hperm, hperm.nodup_iff.mpr hnd, h.seqs, h.dig, h.err, h.em, h.exp⟩
+
+/-- The conservation equation in numbers (what the harness oracle evaluates on the real object). -/
+theorem c13_conservation (cfg : Cfg) (ops : List Op) :
+    let s := run cfg init ops
+    s.ingested = s.queue.length + s.digested + (s.reported + s.autoLogged) + s.emLogged + s.expiredRet := by
+  intro s
+  have hs : s = run cfg init ops := rfl
+  clear_value s
+  subst hs
+  obtain ⟨hp, _, _, h1, h2, h3, h4⟩ := c13_fate_partition cfg ops
+  have := hp.length_eq
+  simp only [State.fates, List.length_append] at this
+  simp only [State.ingested]
+  omega
+
+/-! ### sensitive items -/
+
+/-- With the built-in toxic digester (no custom digester registered for TOXIC_BYPRODUCT): nothing in the recycling
+    bin was extracted from a sensitive item, after any history. -/
+theorem c13_toxic_never_recycled (cfg : Cfg) (htd : cfg.toxDig = none) (ops : List Op) :
+    ∀ kv ∈ (run cfg init ops).bin, kv.2.ty ≠ .toxic :=
+  run_bin htd ops init (by intro kv h; simp [init] at h)
+
+/-- … and no `DigestResult.recycled` handed back by a `digest` call contains anything from a sensitive item. -/
+theorem c13_toxic_never_in_digest_result (cfg : Cfg) (htd : cfg.toxDig = none) (ops : List Op) (k : Option Int)
+    (r : DigestRes) (h : (step cfg (run cfg init ops) (.digest k)).2 = .digest r) :
+    ∀ kv ∈ r.recycledKeys, kv.2.ty ≠ .toxic := by
+  unfold step at h
+  split at h
+  · cases h
+  · simp only [digest] at h
+    cases h
+    exact (digestCore_bin htd _ _ false (run_bin htd ops init (by intro kv h; simp [init] at h))).2
+
+/-- With the built-in toxic digester and an `on_toxic` callback (returning or raising): after any history every
+    ingested item has reached the callback exactly once if it is sensitive and has been processed (digested,
+    errored or emergency-dropped), and never otherwise (not sensitive, still queued, or expired). -/
+theorem c13_toxic_callback_exactly_once_when_processed (cfg : Cfg) (f : Item → Bool) (htd : cfg.toxDig = none)
+    (hot : cfg.onToxic = some f) (ops : List Op) :
+    let s := run cfg init ops
+    ∀ it, s.toxicLog.count it =
+      if it.ty = .toxic ∧ it ∈ s.gDigested ++ s.gErrored ++ s.gEmDropped then 1 else 0 := by
+  intro s it
+  have hs : s = run cfg init ops := rfl
+  clear_value s
+  subst hs
+  have ht : ToxInv (run cfg init ops) := run_tox htd hot ops init (by intro it; simp [init])
+  obtain ⟨_, hnd, _⟩ := c13_fate_partition cfg ops
+  have hle := (List.nodup_iff_count.mp hnd) it
+  simp only [State.fates, List.count_append] at hle
+  have h0 := ht it
+  by_cases hty : it.ty = .toxic
+  · by_cases hm : it ∈ (run cfg init ops).gDigested ++ (run cfg init ops).gErrored ++ (run cfg init ops).gEmDropped
+    · have hpos := List.count_pos_iff.mpr hm
+      simp only [List.count_append] at hpos
+      simp only [hty, hm, and_self, if_true] at h0 ⊢
+      omega
+    · have hz := List.count_eq_zero.mpr hm
+      simp only [List.count_append] at hz
+      simp only [hty, hm, and_false, if_false, if_true] at h0 ⊢
+      omega
+  · simpa [hty] using h0
+
+/-! ### Non-vacuity: concrete configurations and histories meeting the hypotheses, exercising every fate -/
+
+/-- digester raises on content 0, returns a key otherwise; `on_toxic` raises on content 0 -/
+private def cfgEx : Cfg :=
+  ⟨2, 3, 10, true, fun it => if it.content = 0 then .raise else .ret [100 + it.id], none, some fun it => it.content != 0⟩
+
+private def histEx : List Op :=
+  [.ingest 1 .expired 0, .ingest 2 .toxic 1, .ingest 3 .expired 1,    -- capacity: emergency digest drops item 1
+   .digest (some 1), .ingest 4 .toxic 0, .advance 10, .autophagy,     -- toxic item 2 digested; items 3, 4 expire
+   .ingest 5 .expired 0, .ingest 6 .misfolded 1, .digest none]        -- item 5 errors, item 6 digested
+
+/-- all five fates occur, the toxic callback ran once for the processed toxic item and not for the expired one, the
+    bin holds a key — the hypotheses of the theorems above (`2 ≤ maxQ`, built-in toxic digester, callback set,
+    re-entrant lock) are met by a history that exercises them -/
+example :
+    let s := run cfgEx init histEx
+    s.queue.map (·.id) = [] ∧ s.gEmDropped.map (·.id) = [1] ∧ s.gDigested.map (·.id) = [2, 6] ∧
+    s.gExpired.map (·.id) = [3, 4] ∧ s.gErrored.map (·.id) = [5] ∧ s.toxicLog.map (·.id) = [2] ∧
+    s.bin.map (·.1) = [106] ∧ s.ingested = 6 ∧ 2 ≤ cfgEx.maxQ ∧ cfgEx.toxDig = none := by decide
+
+/-- the auto-digest path with a failing item: the error is logged, the item is accounted for -/
+example :
+    let s := run ⟨8, 2, 10, true, fun it => if it.content = 0 then .raise else .ret [], none, none⟩ init
+      [.ingest 1 .expired 0, .ingest 2 .expired 1]
+    s.autoLogged = 1 ∧ s.gErrored.map (·.id) = [1] ∧ s.queue.map (·.id) = [2] := by decide
+
+/-- a thread program meeting the hypothesis of `c13_every_call_returns_threads`: one `ingest` call along the path
+    that takes the auto-digest branch (acquire, re-acquire inside digest, release, release) -/
+example : CallsProg methods tableMethods [.acq, .acq, .rel, .rel] := by
+  refine ⟨[(15, [.acq, .acq, .rel, .rel])], ?_, by simp⟩
+  intro c hc
+  simp only [List.mem_singleton] at hc
+  subst hc
+  refine ⟨by decide, ?_⟩
+  have hdig : Path methods tableMethods (Table.body methods 1) [.acq, .rel] :=
+    Path.acq (Path.rel (Path.cbDone Path.nil))
+  have hauto : Path methods tableMethods (Table.body methods 2) ([.acq, .rel] ++ []) :=
+    Path.callTake hdig Path.nil
+  exact Path.acq (Path.callSkip (Path.callTake hauto (Path.rel Path.nil)))
+
+example : reentOf lockKind = some true := by decide
+
 end Operon.Lysosome
